@@ -489,7 +489,7 @@ func runC07(c *core.Ctx) {
 		key := core.FuncKey(fn)
 		var cur *ssa.Call
 		for _, ci := range core.Calls(fn) {
-			if cv := core.CallValue(ci); cv != nil && cv.Call.IsInvoke() && cv.Call.Method.Name() == "Explore" && core.IsFieldRef(cv.Call.Value, "ExploreRecursive", "current") {
+			if cv := core.CallValue(ci); cv != nil && cv.Call.IsInvoke() && cv.Call.Method.Name() == "Explore" && isSelectorFieldOf(cv.Call.Value, "ExploreRecursive") {
 				cur = cv
 			}
 		}
@@ -519,4 +519,26 @@ func runC07(c *core.Ctx) {
 	} else {
 		c.Undecided(rel+".ExploreRecursive.Explore", "-", "not found")
 	}
+}
+
+// isSelectorFieldOf: v is (a load of) a Selector-typed field of the named selector struct - the clause the recursive
+// selector is currently working through, whatever the field is called.
+func isSelectorFieldOf(v ssa.Value, typ string) bool {
+	v = core.Strip(v)
+	var fv *types.Var
+	var owner types.Type
+	switch x := v.(type) {
+	case *ssa.UnOp:
+		if fa, ok := x.X.(*ssa.FieldAddr); ok {
+			fv, owner = fieldVar(fa), fa.X.Type()
+		}
+	case *ssa.Field:
+		fv, owner = fieldVar(x), x.X.Type()
+	}
+	if fv == nil {
+		return false
+	}
+	on := namedOfType(owner)
+	ft := namedOfType(fv.Type())
+	return on != nil && on.Obj().Name() == typ && ft != nil && ft.Obj().Name() == "Selector"
 }
